@@ -118,6 +118,8 @@ func init() {
 				[]string{"every delete has a reason"}, []string{"scale-in delete"}),
 			step("step-three-healthy-pods", []int{3, 1, 1, oLeanPods | oThreeRevs, mC03}, []int{3, 2, 1, oLeanPods | oThreeRevs, mC03},
 				[]string{"every delete has a reason"}, []string{"scale-in delete", "update delete"}),
+			step("step-arbitrary-slots", []int{1, 2, 2, oPolicyParallel | oLeanPods | oNoRollout | oWildSlots, mC03}, []int{1, 3, 2, oPolicyParallel | oLeanPods | oWildSlots, mC03},
+				[]string{"every delete has a reason"}, []string{"scale-in delete", "delete-slots annotation that does not decode"}),
 		},
 		Stubs: ctlStubs, Assumptions: stepAssume, OutsideClaim: stepOutside,
 	})
@@ -131,7 +133,7 @@ func init() {
 				[]string{"created ordinal is desired"}, []string{"vacant ordinal filled"}),
 			step("step-arbitrary-slots", []int{1, 2, 2, oPolicyParallel | oLeanPods | oNoRollout | oWildSlots, mC04 | mC14}, []int{1, 3, 2, oPolicyParallel | oLeanPods | oWildSlots, mC04 | mC14},
 				[]string{"created ordinal is desired", "every vacant desired ordinal is created in the same reconcile"},
-				[]string{"vacant ordinal filled"}),
+				[]string{"vacant ordinal filled", "delete-slots annotation that does not decode"}),
 		},
 		Stubs: ctlStubs, Assumptions: stepAssume, OutsideClaim: stepOutside,
 	})
